@@ -10,9 +10,11 @@ the evidence says which part the specification decides:
     (RecursiveMapToPlainMap, ToRecursiveMap, StringMapToRecursiveMap,
     JSONToPlainStringMap, PlainStringMapToJSON, ..FormattedJSON); results are compared
     with the specification's flat form AND with encoding/json as the independent
-    decoder / encoder the statement names (5 concrete strings per class string).
+    decoder / encoder the statement names (5 concrete strings per class string).  Beyond the
+    exhaustive depth: spines of 2-7 levels with a sibling leaf or sub-map at every level
+    (3 276 deep maps) -- path lengths at which re-used key-segment slices show.
 (iii) the translation loader is a client of fsloop: directory layouts of *.json files
-    (0-70 files, nested directories, files the filter must skip) are loaded free-running
+    (0-70 files, some with 63-300 keys, nested directories, files the filter must skip) are loaded free-running
     and under the forced lost-item schedule of C08; every key must translate to its value."""
 import json
 import vlib
